@@ -20,17 +20,30 @@ def tasks(tier, seed):
                        reach=(entry + ':end',), bounds='no bound on sizes or positions (predicates are evaluated before any container is touched)',
                        kinds={'assert', 'memory', 'uncaught_exception', 'terminate', 'deadlock'}))
     import session_common as SC
+    import sched_common as SCH
     ts += SC.session_tasks(tier, [], 'session', None, early=(0, 1, 3),
                            kinds={'memory', 'uncaught_exception', 'terminate', 'deadlock', 'hang', 'limit', 'leak'})
     # the same with the back-pressure thresholds scaled down to 2 queued objects / one container + 80 bytes, 7 objects:
     # producers really wait on full queue and full stream, and close() arrives while they are parked there
     ts += SC.session_tasks(tier, [], 'session', None, early=(0, 1, 3, 5), nobj=7, scaled=True,
                            kinds={'memory', 'uncaught_exception', 'terminate', 'deadlock', 'hang', 'limit', 'leak'})
+    # stream buffer exactly as large as a container - the relation the API itself sets up (128 KiB both): a single
+    # write() call of the encoder that crosses a container boundary meets a full buffer
+    for t0 in SC.session_tasks(tier, [], 'session_buf_eq_container', None, nobj=7, scaled=True,
+                               kinds={'memory', 'uncaught_exception', 'terminate', 'deadlock', 'hang', 'limit', 'leak'}):
+        t0.text = '#define SCALED_BUFFER containerSize\n' + t0.text
+        t0.tid = t0.tid.replace('session_buf_eq_container_scaled', 'session_buf_eq_container')
+        t0.desc = 'stream buffer size == container size: ' + t0.desc
+        if '_c1_' not in t0.tid:            # container size 1 with a 1-byte buffer is the recorded chunk > buffer finding
+            ts.append(t0)
+    # the same relation under every schedule with one preemption, container size 13 (fields straddle container boundaries):
+    # the compressor may have gone back to sleep just before the encoder's straddling write() call
+    ts += SCH.sched_tasks(tier, [], 'sched_buf_eq_container', None, {'memory', 'uncaught_exception', 'terminate', 'deadlock', 'hang', 'leak'},
+                          extra_defs='#define SCALE_THRESHOLDS 1\n#define SCALED_BUFFER containerSize\n', nobj=3, cfgs=[(0, 13, 0)])
     ts += SC.big_session_tasks(tier, 'session', None, kinds={'memory', 'uncaught_exception', 'terminate', 'deadlock', 'hang', 'limit', 'leak'})
     # close() in the middle of a read session while the workers are in the middle of a container: base schedule "a new
     # thread runs before its creator continues" plus one preemption (worker -> application at every synchronisation point,
     # also inside critical sections), close after 0 / 1 delivered objects
-    import sched_common as SCH
     for ec in (0, 1):
         ts += SCH.sched_tasks(tier, [], 'close%d_child_first' % ec, None,
                               {'memory', 'uncaught_exception', 'terminate', 'deadlock', 'hang', 'leak'}, in_cs=True, child_first=True,
